@@ -152,6 +152,36 @@ def zero_rewards(game):
 
 TERMINATING = ("stopping", "exact", "pattern", "corpus")   # styles whose reward loop must terminate
 
+def pattern_games3(kmax, tiny=1e-7):
+    """like pattern_games, but each successor is dead (0), alive (reaches F surely) or barely alive (reaches F
+    with probability `tiny`, far below the solver's threshold and its 6-digit rounding)"""
+    out = []
+    for kind in (P1, PR):
+        for k in range(1, kmax + 1):
+            for pat in itertools.product([0, 1, 2], repeat=k):
+                if 2 not in pat:
+                    continue
+                F, S = k + 1, k + 2
+                succ = list(range(1, k + 1))
+                if kind == PR:
+                    ws = [Fr(i + 1, k * (k + 1) // 2) for i in range(k)]
+                    row, fr0 = [(_fl(w), d) for w, d in zip(ws, succ)], ws
+                else:
+                    row, fr0 = [(ACTS[i], d) for i, d in enumerate(succ)], None
+                tl, fr = [row], [fr0]
+                for a in pat:
+                    if a == 2:
+                        tl.append([(tiny, F), (1 - tiny, S)]); fr.append([Fr(tiny), 1 - Fr(tiny)])
+                    else:
+                        tl.append([(1, F if a else S)]); fr.append([Fr(1)])
+                tl += [[(1, F)], [(1, S)]]
+                fr += [[Fr(1)], [Fr(1)]]
+                g = dict(rewards=[1] + [i for i in range(k)] + [0, 0],
+                         players=[kind] + [PR] * k + [PR, PR], transition_list=tl, final_states=[F])
+                out.append((g, dict(fr=fr, style="tinypattern", full=True)))
+    return out
+
+
 FIG55 = dict(
     rewards=[0, 2, 5 / 3, 0, 0, 0, 0, 0],
     players=[P1, P2, P2, PR, PR, PR, PR, PR],
